@@ -1,9 +1,14 @@
 import MicroHttp.Props.C18
+import MicroHttp.Props.C18History
 import MicroHttp.Props.Tables
 #print axioms MicroHttp.C18.kill_wins
 #print axioms MicroHttp.C18.registered_fits_batch
 #print axioms MicroHttp.C18.transparent
 #print axioms MicroHttp.C18.kill_switch_kept
+#print axioms MicroHttp.C18.step_keeps_kill
+#print axioms MicroHttp.C18.history_keeps_kill
+#print axioms MicroHttp.C18.every_poll_with_kill_reports_shutdown
+#print axioms MicroHttp.C18.from_new
 #print axioms MicroHttp.Tables.event_array_extra
 #print axioms MicroHttp.Tables.max_connections
 #print axioms MicroHttp.Tables.no_shared_state
